@@ -279,6 +279,8 @@ pub fn spawn_actor<F: FnOnce() + Send + 'static>(ctx: Ctx, name: &str, f: F) -> 
 
 /// wait for all actors (bounded in virtual time); names the ones that hang
 pub fn await_actors(actors: &[Actor], deadline: u64) {
+    let mut deadline = deadline;
+    let mut graces = 0;
     loop {
         let pending: Vec<&Actor> = actors.iter().filter(|a| !a.done.load(Ordering::Relaxed)).collect();
         if pending.is_empty() {
@@ -286,6 +288,12 @@ pub fn await_actors(actors: &[Actor], deadline: u64) {
         }
         let now = engine::now();
         if now >= deadline {
+            // real sockets: virtual time must not run ahead of a kernel that is late in real time
+            if graces < 3 && engine::kernel_grace(300) {
+                graces += 1;
+                deadline = now + 1_000_000_000;
+                continue;
+            }
             let names: Vec<String> = pending.iter().map(|a| a.name.clone()).collect();
             engine::fail(
                 "hung",
